@@ -229,45 +229,59 @@ def _cdoc():
 
 
 # ------------------------------------------------------------------ C17.d monophony
-def ob_d(nk: int, other: int, chord: bool, content: int, split: bool) -> bool:
-    assume(0 <= nk <= 2 and 0 <= other <= 2 and 0 <= content < 4)
-    return _d_body(choose(nk, 3), choose(other, 3), bool(chord), choose(content, 4), bool(split))
+def ob_d(nk: int, other: int, chord: bool, content: int, split: bool, place: int) -> bool:
+    assume(0 <= nk <= 2 and 0 <= other <= 2 and 0 <= content < 4 and 0 <= place < 3)
+    return _d_body(choose(nk, 3), choose(other, 3), bool(chord), choose(content, 4), bool(split), choose(place, 3))
 
 
 @native
-def _d_body(nk, other, chord, content, split):
-    """nk kern spines, `other` non-kern spines; content: 0 notes, 1 rests only, 2 only null tokens, 3 no data rows at all."""
+def _d_body(nk, other, chord, content, split, place):
+    """nk kern spines, `other` non-kern spines; content: 0 notes, 1 rests only, 2 only null tokens (with a split: one note, in the
+    right-hand sub-spine only), 3 no data rows at all.  place: where the chord sits -- 0 in the unsplit part, 1 / 2 in the left /
+    right sub-spine of a split."""
     heads = ['**kern'] * nk + ['**dynam', '**text'][:other]
     if not heads:
         return True
+    has_split = split and nk >= 1 and content != 3
+    if place and not (has_split and chord):
+        return True
     rows = [heads, ['*clefG2'] * nk + ['*'] * other, ['='] * len(heads)]
     data = []
+    main_chord = chord and place == 0
     if content != 3:
         for i in range(2):
             k = []
             for c in range(nk):
                 if content == 0:
-                    k.append(('4c 4e' if (chord and i == 1 and c == 0) else ('4d', '4e', '4f')[i + c]))
+                    k.append(('4c 4e' if (main_chord and i == 1 and c == 0) else ('4d', '4e', '4f')[i + c]))
                 elif content == 1:
-                    k.append('4r' if not (chord and i == 1 and c == 0) else '4c 4e')
+                    k.append('4r' if not (main_chord and i == 1 and c == 0) else '4c 4e')
                 else:
-                    k.append('.' if not (chord and i == 1 and c == 0) else '4c 4e')
+                    k.append('.' if not (main_chord and i == 1 and c == 0) else '4c 4e')
             data.append(k + ['f', 'la'][:other])
     rows += data
-    if split and nk >= 1 and content in (0, 1):
+    if has_split:
         w = len(heads)
+        left, right = (('4g', '4a'), ('4r', '4r'), ('.', '4a'))[content]
+        if chord and place == 1:
+            left = '4c 4e'
+        if chord and place == 2:
+            right = '4c 4e'
         rows.append(['*^'] + ['*'] * (w - 1))
-        rows.append([('4g', '4r')[content], ('4a', '4r')[content]] + (['4b'] * (nk - 1)) + ['.', '.'][:other])
+        rows.append([left, right] + [('4b', '4r', '.')[content]] * (nk - 1) + ['.', '.'][:other])
         rows.append(['*v', '*v'] + ['*'] * (w - 1))
     rows.append(['*-'] * len(heads))
     text = sp.to_text(rows)
     doc, errs = kp.loads(text)
     check(not errs, f'import errors on {text!r}')
-    has_chord = chord and content != 3
-    has_note_rest = content in (0, 1) or False
+    has_chord = chord and content != 3 and nk >= 1          # the chord cell lives in the first **kern spine
+    has_note_rest = content in (0, 1) or (content == 2 and has_split)
     exp = (nk == 1) and (not has_chord) and has_note_rest
     got = kp.is_monophonic(doc)
     check(bool(got) == exp, f'is_monophonic = {got} for {text!r}: kern spines {nk}, chord {has_chord}, note or rest {has_note_rest}')
+    # the listing agrees: chords <=> CHORD tokens listed, notes / rests <=> NOTE_REST tokens listed
+    n_chords = len(doc.get_all_tokens(filter_by_categories=[TC.CHORD]))
+    check((n_chords > 0) == has_chord, f'{n_chords} CHORD tokens listed for {text!r}, chord present: {has_chord}')
     return True
 
 
@@ -336,7 +350,8 @@ OBLIGATIONS = [
        min_confirmed=6, symbolic='key string', enumerated='clear flag, None',
        bounds={'quick': 'key <= 4 chars on a document with 7 comment lines before / inside / after the spines', 'thorough': 'key <= 6 chars'}),
     Ob(id='C17.d', fn=ob_d, title='is_monophonic <=> one **kern spine and no chord and at least one note or rest',
-       budget_s={'quick': 120, 'thorough': 600}, witnesses=[{'nk': 1, 'other': 1, 'chord': False, 'content': 0, 'split': False}], min_confirmed=100,
-       enumerated='kern spines 0..2, other spines 0..2, chord, content kind (notes, rests only, nulls only, no data), split',
-       bounds={'quick': '3 x 3 x 2 x 4 x 2 documents', 'thorough': 'same'}),
+       budget_s={'quick': 120, 'thorough': 600}, witnesses=[{'nk': 1, 'other': 1, 'chord': False, 'content': 0, 'split': False, 'place': 0}, {'nk': 1, 'other': 0, 'chord': True, 'content': 0, 'split': True, 'place': 2},
+                  {'nk': 1, 'other': 0, 'chord': False, 'content': 2, 'split': True, 'place': 0}], min_confirmed=100,
+       enumerated='kern spines 0..2, other spines 0..2, chord, content kind (notes, rests only, nulls only, no data), split, where the chord sits (unsplit part, left / right sub-spine)',
+       bounds={'quick': '3 x 3 x 2 x 4 x 2 x 3 documents', 'thorough': 'same'}),
 ]
